@@ -21,7 +21,8 @@ META = {
              'and chunk shapes whose intermediate shapes collide; huge: wh'
              'ole-volume sized arrays (> 2^25 voxels).'
              " Round 12: non-dyadic outside values (mean just beside a tie)."
-             " Round 16: the result is read only after the same downscaler has processed another array of the same shape and type."),
+             " Round 16: the result is read only after the same downscaler has processed another array of the same shape and type."
+             " Round 17: the downscaler under test is the second one made from one options dictionary object."),
     "trusted_base": ["vlib/refs/downscale_ref.py, dtype_ref.py (Fractions)"],
     "assumptions": ["finite values; float32 results compared within 1 ulp"],
 }
@@ -86,12 +87,17 @@ def get_downscaler(case):
     opts = {}
     if case["outside"] is not None:
         opts["outside_value"] = float(case["outside"])
+    # one options dictionary serves several datasets / calls (vars(args) of
+    # a script, the options of a batch conversion): the downscaler used below
+    # is the SECOND one made from the same dictionary object
     if case.get("auto"):
         info = {"type": {"average": "image",
                          "stride": "segmentation"}[case["method"]],
                 "data_type": case.get("dtype", "uint8"), "num_channels": 1,
                 "scales": []}
+        get_downscaler("auto", info, opts)
         return get_downscaler("auto", info, opts)
+    get_downscaler(case["method"], None, opts)
     return get_downscaler(case["method"], None, opts)
 
 
